@@ -251,3 +251,23 @@ class submit_crossroads(ContractBase):
                                                                flag(c.cur, s, 'crew') == flag(c.old, s, 'crew'))),
                 'todo': Implies(And(active, is_('TODO')), And(n1 == n0, Not(flag(c.cur, s, 'todo')), flag(c.cur, s, 'crew') == flag(c.old, s, 'crew'),
                                                              flag(c.cur, s, 'doing') == flag(c.old, s, 'doing')))}
+
+
+@contract(W, 'dawgie/pl/state.py', 'FSM.save_prior_state', props=['C10'])
+class save_prior_state(ContractBase):
+    """the `before` callback of both archiving edges: it runs before the state changes, so a trigger that arrives while
+    another transition is in progress must be rejected here with nothing changed"""
+    params = {'self': FSM}
+    modifies = ['FSM._FSM__prior', 'FSM._FSM__transitioning']
+    raises = {'MachineError': lambda c: c.old.f('FSM._FSM__transitioning', c['self']) != STATUS.const('active')}
+
+    def ensures(c):
+        s = c['self']
+        return {'prior-is-the-state-left': c.cur.f('FSM._FSM__prior', s) == Opt(FSMSTATE).some(c.old.f('FSM.state', s)),
+                'guard-restored': c.cur.f('FSM._FSM__transitioning', s) == STATUS.const('active'),
+                'only-at-rest': c.old.f('FSM._FSM__transitioning', s) == STATUS.const('active')}
+
+    def ensures_on_raise(c):
+        s = c['self']
+        return {'rejected-without-side-effects': And(c.cur.f('FSM._FSM__prior', s) == c.old.f('FSM._FSM__prior', s),
+                                                     c.cur.f('FSM._FSM__transitioning', s) == c.old.f('FSM._FSM__transitioning', s))}
